@@ -231,6 +231,7 @@ func runC11(p *load.Program, r *oblig.Report) {
 	c.ruleR11()
 	c.ruleR12()
 	c.ruleR13()
+	c11DoUnsetsDeadline(p, r)
 }
 
 // ruleR1: broker errors raised mid-frame are followed by a drain.
